@@ -28,6 +28,7 @@ import (
 
 	"verif/harness/internal/casefile"
 	"verif/harness/internal/fracbuild"
+	"verif/harness/internal/rng"
 )
 
 var mapping = seq.Mapping{
@@ -522,7 +523,7 @@ func main() {
 		fmt.Fprintln(os.Stderr, "need -out")
 		os.Exit(2)
 	}
-	w, err := casefile.New(*out, "C05", "From VLib Require Import CaseLib.\nFrom C05 Require Import Model CaseDefs.\nOpen Scope N_scope.", 300)
+	w, err := casefile.New(*out, "C05", "From Coq Require Import ZArith.\nFrom VLib Require Import CaseLib.\nFrom C05 Require Import Model CaseDefs.\nOpen Scope N_scope.", 300)
 	if err != nil {
 		panic(err)
 	}
@@ -530,6 +531,7 @@ func main() {
 		doReplay(w, *replay)
 	} else {
 		generate(w, *seed, *tier == "thorough")
+		runGen(w, rng.New(*seed^0x47454E05), *tier == "thorough")
 	}
 	if err := w.Close(); err != nil {
 		panic(err)
